@@ -24,6 +24,48 @@ CHECKS = {
         text="All union occurrences of the metamodel (declared or-types and references to or-aliases) x every alternative x {cost<=k neighbourhood, maximal value, ordered pairs for arrays}; each must structure without error into an instance of an alternative valid for the value; a (site, alternative) without execution fails as vacuous.",
         note="Trusted: MM; unions of partialResult/registrationOptions/errorData have no generated class to structure into and are listed in the evidence.",
         ref="3/C14"),
+    "C02": dict(
+        engine="VSE",
+        technique="bounded exhaustive enumeration of metamodel derivations x choice-sequence exploration of union alternatives; objects built by the public constructors, output compared for exact equality with the reference normal form",
+        text="Every derivation (<=k deviations) of every root x every admissible class choice at union positions (<=d non-default choices) x {literals passed, literals defaulted} is built with the public constructors only, unstructured, compared exactly with MM.nf, re-structured and re-serialised.",
+        note="Trusted: MM.nf and the documented snake_case rule (independent of the converter's rename code).",
+        ref="3/C02"),
+    "C10": dict(
+        engine="VSE",
+        technique="exhaustive enumeration of (class, attribute, set/unset, surrounding value) over all generated classes, executed on constructors, unstructure and structure",
+        text="All attributes of all structure and envelope classes are toggled between unset and set while the surrounding object ranges over the cost<=1 neighbourhood and the maximal value; key presence / null / literal expectations come from MM, never from the generated special-property table; parse path with the property absent.",
+        note="Trusted: MM's syntactic reading of null-admitting (T|null), envelope rule (method, jsonrpc, result).",
+        ref="3/C10"),
+    "C11": dict(
+        engine="VSE",
+        technique="exhaustive enumeration of single-field spec-invalid edits over bounded surrounding values; each edited value judged invalid by the reference model must make converter.structure raise",
+        text="All structures x surrounding values (k<=1/2) x every eligible property (root node and nested nodes) x {remove required, 6 out-of-range numbers, outside-enum values, changed literal}.",
+        note="Trusted: MM validity; eligibility read narrowly (directly typed properties).",
+        ref="3/C11"),
+    "C12": dict(
+        engine="GRID",
+        technique="exhaustive enumeration of (integer-typed property x boundary grid x entry point) and of validator calls over an argument alphabet",
+        text="All directly integer/uinteger-typed properties x boundary grid (thorough: +-1024 around each bound) x {constructor, converter}: accept iff in range, same verdict; validator functions over instance x attribute x value alphabets return True or raise ValueError naming class and attribute.",
+        note="Decided on a grid, not on all ints.",
+        ref="3/C12"),
+    "C13": dict(
+        engine="VSE",
+        technique="exhaustive comparison of enum member multisets plus enumeration of every (enum use site x value) executed on the real converter",
+        text="40 enumerations compared with the metamodel as multisets (both directions); every reference to an enumeration x every declared value (+custom values for open enums) must structure and round-trip in its owner root; outside values at closed enums must be rejected.",
+        note="Trusted: MM validity for deciding that an outside value makes the message invalid.",
+        ref="3/C13"),
+    "C15": dict(
+        engine="VSE",
+        technique="bounded exhaustive enumeration of derivations x protocol-object nodes x fresh property names x payloads, differential oracle against the unextended value",
+        text="Every derivation (k<=1/2 + maximal) x every protocol-object node x fresh names x payloads: structuring the extended value must succeed, equal the original result and re-serialise identically.",
+        note="Names are declared nowhere in the metamodel; data positions (LSPAny, maps) excluded.",
+        ref="3/C15"),
+    "C20": dict(
+        engine="GRID",
+        technique="exhaustive enumeration of all pairs/triples of positions over a boundary grid, all ranges/locations built from them, all operators, against tuple comparison",
+        text="25 positions, 625 ordered pairs x 6 operators, trichotomy, transitivity on all triples, 25 ranges and 50 locations pairwise, unrelated and cross-class operands on both sides, reprs.",
+        note="Decided on a 5-value grid per coordinate.",
+        ref="3/C20"),
 }
 
 PENDING_REASON = "check not built yet in this session (planned, see DESIGN.md section 3); not claimed until it exists"
@@ -77,7 +119,8 @@ NOT_APPLICABLE = {}
 
 ENGINES = [
     {"name": "MM", "path": "lspverif/mm.py", "serves_properties": [], "kind_free_text": "reference model of the LSP metamodel (oracle)"},
-    {"name": "VSE", "path": "lspverif/vse.py", "serves_properties": ["C01", "C03", "C14"], "kind_free_text": "deviation-bounded exhaustive value-space explorer over the metamodel grammar"},
+    {"name": "VSE", "path": "lspverif/vse.py", "serves_properties": ["C01", "C02", "C03", "C10", "C11", "C13", "C14", "C15"], "kind_free_text": "deviation-bounded exhaustive value-space explorer over the metamodel grammar"},
+    {"name": "GRID", "path": "lspverif/props/c12.py", "serves_properties": ["C12", "C20"], "kind_free_text": "exhaustive boundary-grid enumeration on the real classes and validators"},
 ]
 
 if __name__ == "__main__":
